@@ -133,14 +133,16 @@ package common
 //@   safe
 //@   modifies bA.Elems[_]
 
-// A peer-supplied bit array is only usable if it satisfies the representation invariant; FromProto
-// copies Bits and Elems unchecked.
-//@ func (bA *BitArray) FromProto(protoBitArray *kprotobits.BitArray)
+// A peer-supplied bit array is only usable if it satisfies the representation invariant: FromProto
+// accepts exactly the arrays with len(Elems) == ceil(Bits/64) and leaves the receiver empty otherwise.
+//@ func (bA *BitArray) FromProto(protoBitArray *kprotobits.BitArray) (err error)
 //@   for C18
 //@   safe
 //@   requires bA != nil && bA.Bits == 0 && len(bA.Elems) == 0
 //@   modifies bA.Bits, bA.Elems
 //@   ensures [establishesWF] protoBitArray != nil && bA.Bits != 0 ==> wfBits(bA)
+//@   ensures [rejectedLeavesEmpty] err != nil ==> bA.Bits == 0 && len(bA.Elems) == 0
+//@   ensures [acceptsWellFormed] protoBitArray != nil && protoBitArray.Bits >= 0 && len(protoBitArray.Elems) == (protoBitArray.Bits + 63) / 64 ==> err == nil && bA.Bits == protoBitArray.Bits && len(bA.Elems) == len(protoBitArray.Elems)
 
 // ---------------------------------------------------------------- fixed-size byte arrays
 // One-line wrappers around bytes.Equal / copy over the whole array. The two Equal methods are verified
